@@ -12,7 +12,7 @@ from vlib import models as M
 from vlib import plain
 
 EXTRA_KEYS = ['x1', 'extra', 'note', 'true', '1', 'a b', '\u00e9', 'Zz',
-              'null', '1.5', 'on', 'self', '_yatiml_extra']
+              'null', '1.5', 'on', 'self', '_yatiml_extra', 'return', 'kwargs']
 PATHS = ['a/b', '/abs/p', '.', 'x y', 'rel/../up', '~', 'true', '1', 'a:b',
          '\u00e9/\u00fc']
 
